@@ -12,8 +12,8 @@ Definition stmt_ok (s : stmt) : Prop :=
   Forall (fun l => is_blank l = false) s /\
   match s with
   | [] => False
-  | [l] => classify [l] = Complete
-  | l :: r => classify [l] = Incomplete /\ classify (s ++ [blank]) = Complete
+  | [l] => is_white l = false /\ classify [l] = Complete
+  | l :: r => is_white l = false /\ classify [l] = Incomplete /\ classify (s ++ [blank]) = Complete
   end.
 
 Lemma feed_app st a b : feed classify st (a ++ b) =
@@ -37,15 +37,15 @@ Proof.
     rewrite <- app_assoc. reflexivity.
 Qed.
 
-Lemma feed_multi l rest : is_blank l = false -> Forall (fun x => is_blank x = false) rest ->
+Lemma feed_multi l rest : is_blank l = false -> is_white l = false -> Forall (fun x => is_blank x = false) rest ->
   classify [l] = Incomplete -> classify (l :: rest ++ [blank]) = Complete ->
   feed classify idle (l :: rest ++ [blank]) = (idle, [Prompt true; Prompt false; Exec (l :: rest ++ [blank])]).
 Proof.
-  intros Hl Hr H1 H2.
+  intros Hl Hw Hr H1 H2.
   change (l :: rest ++ [blank]) with ([l] ++ (rest ++ [blank])) at 1.
   rewrite feed_app.
   assert (E1 : feed classify idle [l] = ({| continuation := true; previous := [l] |}, [Prompt true])).
-  { cbn [feed]. unfold run_line. cbn [continuation previous idle andb app]. rewrite Hl, H1. reflexivity. }
+  { cbn [feed]. unfold run_line, ignorable. cbn [continuation previous idle andb app]. rewrite Hl, Hw, H1. reflexivity. }
   rewrite E1. rewrite feed_app. rewrite (feed_continuation [l] rest Hr).
   assert (E2 : feed classify {| continuation := true; previous := [l] ++ rest |} [blank] =
                (idle, [Prompt false; Exec (l :: rest ++ [blank])])).
@@ -61,11 +61,11 @@ Lemma feed_stmt s : stmt_ok s ->
              last es (Prompt true) = Exec (text_of s).
 Proof.
   intros [Hnb Hc]. destruct s as [|l r]; [contradiction|]. destruct r as [|l2 r].
-  - simpl. unfold run_line. simpl. inversion Hnb; subst. rewrite H1. simpl. rewrite Hc.
+  - destruct Hc as [Hw Hc]. simpl. unfold run_line, ignorable. simpl. inversion Hnb; subst. rewrite H1, Hw. simpl. rewrite Hc.
     eexists. split; [reflexivity|]. simpl. auto.
-  - destruct Hc as [H1 H2]. inversion Hnb as [|? ? Hl Hr]; subst.
+  - destruct Hc as [Hw [H1 H2]]. inversion Hnb as [|? ? Hl Hr]; subst.
     unfold typed, text_of. change ((l :: l2 :: r) ++ [blank]) with (l :: (l2 :: r) ++ [blank]) in *.
-    rewrite (feed_multi l (l2 :: r) Hl Hr H1 H2). eexists. split; [reflexivity|]. simpl. auto.
+    rewrite (feed_multi l (l2 :: r) Hl Hw Hr H1 H2). eexists. split; [reflexivity|]. simpl. auto.
 Qed.
 
 (* the whole session: the statements are executed exactly once each, in order, and the REPL
@@ -86,7 +86,7 @@ Lemma run_line_prompt st l st' es : run_line classify st l = (st', es) ->
 Proof.
   unfold run_line. intros H c Hin.
   destruct (continuation st && negb (is_blank l)); [inversion H; subst; destruct Hin|].
-  destruct (match previous st with [] => is_blank l | _ => false end); [inversion H; subst; destruct Hin|].
+  destruct (match previous st with [] => ignorable l | _ => false end); [inversion H; subst; destruct Hin|].
   destruct (classify (previous st ++ [l])); inversion H; subst; simpl in Hin;
     repeat (destruct Hin as [Hin|Hin]; [inversion Hin; reflexivity|]); try contradiction.
 Qed.
